@@ -22,7 +22,7 @@ POOL = ["NULL", "TRUE", "FALSE", "0", "1", "(-1)", "7", "0.0", "2.5", "(-1.5)", 
         # collections with repeated elements (fewer distinct elements than elements), and a count between the two
         "[1, 1]", "[1, 1, 1, 1, 1, 1, 1]", "'aaaaaaa'", "2",
         # objects that say how they are rendered - also when that fails
-        "<*_str_ = fn(self) 'OBJ'*>", "<*_str_ = fn(self) error 'S'*>"]
+        "<*_str_ = fn(self) 'OBJ'*>", "<*_str_ = fn(self) error 'S'*>", "<*_str_ = fn(self) 5*>", "<*_str_ = 5*>"]
 PRELUDE = ""
 # cyclic (self-containing) data is not part of the pool: rendering, hashing and comparing it recurses without bound
 # (recorded finding C13-F11, probed by one program below)
